@@ -140,7 +140,7 @@ class Gen:
         elif c == "withcap":
             self.emit(f"withcap {r.choice([0, 1, 3, 4, 7, 8, 14, 15, 28, 29, 56, 100])}"); self.contents = {}
 
-def make_script(rng, name, kind=None, plan=None, nkeys=None, length=None):
+def make_script(rng, name, kind=None, plan=None, nkeys=None, length=None, clone_ops=False):
     kind = kind or rng.choice(["map-drop", "map-drop", "map-plain"])
     plan = plan or rng.choice(PLANS)
     nkeys = nkeys or rng.choice([6, 12, 24, 40, 80, 130])
@@ -156,6 +156,17 @@ def make_script(rng, name, kind=None, plan=None, nkeys=None, length=None):
             if g.resync:
                 # extract_if made the generator's view stale: emit a clear to get back in sync
                 g.emit("clear"); g.contents = {}; g.resync = False; steps += 1
+            if clone_ops and rng.random() < 0.12:
+                c = rng.choice(["o_clone", "o_clone_from", "o_swap", "o_eq", "o_eq", "o_clone_from", "o_clone"])
+                g.emit(c)
+                if c == "o_clone":
+                    g.other = dict(g.contents)
+                elif c == "o_clone_from":
+                    g.contents = dict(getattr(g, "other", {}))
+                elif c == "o_swap":
+                    g.contents, g.other = dict(getattr(g, "other", {})), dict(g.contents)
+                steps += 1
+                continue
             if phase == "fill":
                 k = g.absent()
                 g.op_insert(k if k is not None else None)
